@@ -244,7 +244,7 @@ Lemma close_spec s :
   pstate s' = 1 /\ jobs s' = jobs s /\ putlocks s' = putlocks s /\ wlist s' = wlist s
   /\ sem s' = LaxSem.clear (sem s).
 Proof.
-  intros H. unfold step. cbn [with_sigs pstate]. rewrite H. cbn. auto.
+  intros H. unfold step, do_close. cbn [with_sigs pstate]. rewrite H. cbn. auto.
 Qed.
 
 (* ------------------------------------------------------------------ the system invariant *)
